@@ -56,9 +56,12 @@ def check_chain_list(ctx, chains, L, oid_id, exact=True, fast=False):
     return g
 
 
-def _mk(spec):
+ALPHABETS = [(0, 1, 2), (0, -1, -2), (-2, -1, 5), (7, -2, -1)]       # identity id first; hash(-1) == hash(-2) in CPython
+
+
+def _mk(spec, alph=(0, 1, 2)):
     oids, ist, c = spec
-    return ptn.OpChain(oids, [0] * (len(oids) + 1), c, ist)
+    return ptn.OpChain([alph[o] for o in oids], [0] * (len(oids) + 1), c, ist)
 
 
 def make_exhaustive(L, k):
@@ -83,17 +86,18 @@ def make_exhaustive(L, k):
             j = i + r
             lists = [[i, j, l] for l in range(j, N)]
         good = 0
+        alph = ALPHABETS[idx % len(ALPHABETS)] if k < 3 or L < 3 else ALPHABETS[(idx // 7) % len(ALPHABETS)]
         for lst in lists:
-            chains = [_mk(CH[t]) for t in lst]
-            ctx.cur_info = {'L': L, 'chains': [CH[t] for t in lst]}
+            chains = [_mk(CH[t], alph) for t in lst]
+            ctx.cur_info = {'L': L, 'alphabet': alph, 'chains': [CH[t] for t in lst]}
             before = len(ctx.violations)
-            g = check_chain_list(ctx, chains, L, 0, exact=True, fast=True)
+            g = check_chain_list(ctx, chains, L, alph[0], exact=True, fast=True)
             if len(ctx.violations) == before and g is not None:
                 good += 1
             n += 1
         for mname in mons:
             ctx.count_n(mname, good)
-        ctx.case_bulk((f'exhaustive-L{L}', f'{k}-chains'), n, nontrivial=True)
+        ctx.case_bulk((f'exhaustive-L{L}', f'{k}-chains', f'alphabet{alph}'), n, nontrivial=True)
         if idx % 97 == 0:
             ctx.case((f'exhaustive-L{L}', f'{k}-chains', 'sample'), nontrivial=False, sample={'L': L, 'chains': [CH[t] for t in lists[-1]]})
     if k == 1:
@@ -116,14 +120,16 @@ def random_case(ctx, idx, rng):
     n = {'few': int(rng.integers(1, 6)), 'many': int(rng.integers(10, 41)), 'single': 1}.get(kind, int(rng.integers(2, 12)))
     exact = kind != 'gaussian'
     chains = []
+    pool = gen.OID_POOLS[int(rng.integers(0, len(gen.OID_POOLS)))]
+    oid_id0 = 0 if pool is None else pool[0]
     for _ in range(n):
-        c = gen.rand_chain(rng, L, nops=nops, charges=(kind == 'charged'), allow_zero=(kind != 'single'))
+        c = gen.rand_chain(rng, L, nops=nops, charges=(kind == 'charged'), allow_zero=(kind != 'single'), pool=pool)
         if kind == 'gaussian':
             c.coeff = float(rng.normal()) * float(rng.choice([1, 1e-6, 1e6]))
         if kind == 'single':
             c.coeff = float(rng.choice([2.5, -0.75, 1e-3, 7, 1]))
         if kind == 'identity-heavy':
-            c.oids = [0 if rng.random() < 0.6 else o for o in c.oids]
+            c.oids = [oid_id0 if rng.random() < 0.6 else o for o in c.oids]
         chains.append(c)
     if kind in ('cancelling', 'few', 'many') and rng.random() < 0.6:
         c = copy.deepcopy(chains[0])
@@ -137,7 +143,7 @@ def random_case(ctx, idx, rng):
     if not any(c.coeff != 0 for c in chains):
         chains[0].coeff = 1.0
     zero_sum = not refs.chains_poly(chains, L, 0)
-    ctx.case(('random', kind, f'L{min(L, 4)}', f'ops{nops}', 'sum-zero' if zero_sum else 'sum-nonzero'), nontrivial=True,
+    ctx.case(('random', kind, f'L{min(L, 4)}', f'ops{nops}', 'sum-zero' if zero_sum else 'sum-nonzero', 'ids-default' if pool is None else f'ids{pool}'), nontrivial=True,
              sample={'L': L, 'chains': [(c.oids, c.qnums, c.coeff, c.istart) for c in chains[:8]]},
              info={'L': L, 'chains': [(c.oids, c.qnums, c.coeff, c.istart) for c in chains]})
     g = check_chain_list(ctx, chains, L, 0, exact=exact)
